@@ -1,5 +1,6 @@
 import subprocess, sys
-sys.path.insert(0,'/tmp/wt')
+import os
+sys.path.insert(0, os.path.dirname(os.path.abspath(__file__)))
 from needs import needs
 import re
 def needs2(path, idx):
